@@ -42,7 +42,6 @@ Proof.
   - exists []. reflexivity.
   - apply N.leb_le. vm_compute. reflexivity.
   - apply N.leb_le. vm_compute. reflexivity.
-  - apply N.leb_le. vm_compute. reflexivity.
 Qed.
 Lemma c6_budget : budget wit_opts false [c6_root] [] (concat (map fst (cs_pre c6_sess)) ++ cs_puts c6_sess).
 Proof. unfold budget. apply N.ltb_lt. vm_compute. reflexivity. Qed.
